@@ -189,6 +189,22 @@ check("C14", "model_checking",
       "the C15/C16 checks; non-lattice polygons only through the dyadic re-scalings.",
       "TLC-enumerated inputs replayed into the real code; outputs judged by TLC against a TLA+ definition", "DESIGN.md §5 C14")
 
+check("C11", "model_checking",
+      "Diagnostics.tla is the definition (edge use counts, fan connectivity, same-direction traversals, orientability as "
+      "existence of a consistent flip assignment). TLC (ComplexGen) enumerates EVERY set of <= 4 (thorough 8) oriented "
+      "triangles over 4 vertex names and <= 3 (4) over 5 names - open fans, pinches, three faces on an edge, pillows, "
+      "flipped neighbours - and every set of <= 4 (5) directed segments; the real NeedsRepair / SingularVertices / "
+      "InconsistentEdges / Orientable / Manifold / InconsistentVertices answers must equal the definitions set for set "
+      "(DiagJudge). Every subset of the faces of a tetrahedron (and seeded subsets for an octahedron and a box) is flipped "
+      "and RepairNormals / RepairNormalsMajority must restore the outward complex; vertex-jittered copies must be merged "
+      "back by Repair. Every forest with <= 4 (5) nodes is realised as nested box shells (cavities, islands, siblings in "
+      "seeded corners, isotropic and stretched 8x along each axis) and MeshToHierarchy in 3-D and 2-D must return exactly "
+      "that forest with no face lost or duplicated and classify probe points by the even-odd rule.",
+      "Trusted: TLC; vertex identity by exact coordinates; the harness's own box layout for 'which shells contain the "
+      "probe'. RepairNormals only on convex closed shells; hierarchy components are boxes.",
+      "TLC-enumerated complexes / forests replayed into the real code and judged by TLC against TLA+ definitions",
+      "DESIGN.md §5 C11")
+
 _pending = "check not built yet in this session (planned, see DESIGN.md §10)"
 for pid in ["C01","C02","C03","C04","C05","C06","C07","C08","C10","C11","C12","C13","C14","C15","C16","C17","C18","C20"]:
     if pid not in CHECKS:
